@@ -74,6 +74,7 @@ def hasEncodedAs (d : Decl) : Bool :=
 
 def deriveCase : P Verdict := do
   let docs ← P.bool
+  let reachesEncodedAs ← P.bool
   let d ← pDecl
   let ty ← P.ty
   let m ← P.list (do let i ← P.nat; let e ← pTyExpr; pure (i, e))
@@ -106,14 +107,14 @@ def deriveCase : P Verdict := do
     match Value.decodeVal reg fuel root bytes with
     | some (v', []) =>
       if v' != v then errs := errs ++ [s!"C03: value {k}: decoding the derived Encode output from the registry alone yields a different variant / field names / order / leaf values"]
-    | some (_, _ :: _) => errs := errs ++ [s!"C03: value {k}: the registry-directed decoder does not consume the encoding exactly"]
+    | some (v', r :: rs) => errs := errs ++ [s!"C03: value {k}: the registry-directed decoder does not consume the encoding exactly ({(r :: rs).length} bytes left; read {((toString (repr v')).replace "\n" " ").take 600})"]
     | none => errs := errs ++ [s!"C03: value {k}: the registry-directed decoder cannot read the encoding"]
     match v, bytes with
     | .variant _ idx _, b :: _ => if b.toNat != idx then errs := errs ++ [s!"C03: value {k}: the first byte of the encoding is not the variant index of the metadata"]
     | _, _ => pure ()
     k := k + 1
   if !errs.isEmpty then
-    let tag := if hasEncodedAs d then "[encoded_as] " else ""
+    let tag := if hasEncodedAs d || reachesEncodedAs then "[encoded_as] " else ""
     return .specfail (tag ++ " ;; ".intercalate errs.eraseDups)
   -- correspondence with the model of the macro
   match Derive.typeInfo docs d with
